@@ -80,6 +80,13 @@ Accepts(ty, a) ==
     [] ty = "Callable" -> a = "fn"
     [] ty = "Iterable" -> a \in {"list", "tuple", "dict"}
     [] ty = "Unpacker" -> a \in {"int7", "int9"}              \* the harness' custom Unpacker accepts small ints
+    \* variables of a concrete Starlark type accept exactly the values of that type (no conversion between
+    \* string and bytes, bool and int, int and float)
+    [] ty = "String"   -> a = "str"
+    [] ty = "Bytes"    -> a = "bytes"
+    [] ty = "Float"    -> a = "float"
+    [] ty = "Bool"     -> a \in {"true", "false"}
+    [] ty = "Tuple"    -> a = "tuple"
 
 IsOptional(pairs, i) == \E j \in 1..i : pairs[j].mark # ""
 
